@@ -93,6 +93,15 @@ type Owner struct {
 	Name string
 	Kids []Kid
 	Tags []Tag `gorm:"many2many:owner_tags"`
+	// Labels: the same targets through a join model that has a soft-delete column of its own
+	Labels []Tag `gorm:"many2many:owner_labels;joinForeignKey:OwnerID;joinReferences:TagID"`
+}
+
+// OwnerLabel: the join model of Owner.Labels (SetupJoinTable): a link can be soft deleted
+type OwnerLabel struct {
+	OwnerID   int64 `gorm:"primaryKey"`
+	TagID     int64 `gorm:"primaryKey"`
+	DeletedAt gorm.DeletedAt
 }
 
 // Tag: a soft-deletable many2many target of Owner
@@ -472,7 +481,7 @@ func (e *env) assoc(in Input, twins bool) ([][]int64, [][]int64, []string) {
 			errs = append(errs, w+": "+err.Error())
 		}
 	}
-	for _, t := range []string{"owners", "kids", "keepers", "pets", "wards", "orgs", "tags", "owner_tags"} {
+	for _, t := range []string{"owners", "kids", "keepers", "pets", "wards", "orgs", "tags", "owner_tags", "owner_labels"} {
 		fail("reset", db.Exec("DELETE FROM "+t).Error)
 	}
 	for k := int64(0); k < 3; k++ {
@@ -482,6 +491,14 @@ func (e *env) assoc(in Input, twins bool) ([][]int64, [][]int64, []string) {
 		for _, tg := range []int64{k + 1, k + 4} {
 			fail("ins", db.Exec("INSERT INTO tags (id, name, deleted_at) VALUES (?,?,NULL)", tg, "t").Error)
 			fail("ins", db.Exec("INSERT INTO owner_tags (owner_id, tag_id) VALUES (?,?)", k+1, tg).Error)
+			if tg == k+1 {
+				// a live link through the soft-deletable join model; with twins also a marked link to
+				// the owner's other (live) tag
+				fail("ins", db.Exec("INSERT INTO owner_labels (owner_id, tag_id, deleted_at) VALUES (?,?,NULL)", k+1, tg).Error)
+				if twins {
+					fail("ins", db.Exec("INSERT INTO owner_labels (owner_id, tag_id, deleted_at) VALUES (?,?,?)", k+1, k+4, t1).Error)
+				}
+			}
 			if twins {
 				fail("ins", db.Exec("INSERT INTO tags (id, name, deleted_at) VALUES (?,?,?)", tg+100, "t", t1).Error)
 				fail("ins", db.Exec("INSERT INTO owner_tags (owner_id, tag_id) VALUES (?,?)", k+1, tg+100).Error)
@@ -633,14 +650,14 @@ func (e *env) assoc(in Input, twins bool) ([][]int64, [][]int64, []string) {
 		uout = append(uout, kidIDs(o.Kids))
 	}
 	// many2many targets: preload and association lookups, scoped and Unscoped
-	{
-		tagIDs := func(ts []Tag) []int64 {
-			ids := []int64{}
-			for _, t := range ts {
-				ids = append(ids, t.ID)
-			}
-			return sorted(ids)
+	tagIDs := func(ts []Tag) []int64 {
+		ids := []int64{}
+		for _, t := range ts {
+			ids = append(ids, t.ID)
 		}
+		return sorted(ids)
+	}
+	{
 		var os []Owner
 		fail("m2m_preload", db.Preload("Tags").Order("id").Find(&os).Error)
 		for _, o := range os {
@@ -665,6 +682,30 @@ func (e *env) assoc(in Input, twins bool) ([][]int64, [][]int64, []string) {
 			fail("m2m_assoc_unscoped_find", db.Unscoped().Model(&Owner{ID: k}).Association("Tags").Find(&ts))
 			uout = append(uout, tagIDs(ts))
 		}
+	}
+	// association lookups through a join model with its own soft-delete column (the related model
+	// soft-deletes too): marked links are not followed
+	for k := int64(1); k <= 3; k++ {
+		var ts []Tag
+		fail("label_assoc_find", db.Model(&Owner{ID: k}).Association("Labels").Find(&ts))
+		out = append(out, tagIDs(ts))
+		out = append(out, []int64{db.Model(&Owner{ID: k}).Association("Labels").Count()})
+		ts = nil
+		fail("label_assoc_find_or", db.Model(&Owner{ID: k}).Where("name = ? OR name = ?", "t", "zz").Association("Labels").Find(&ts))
+		out = append(out, tagIDs(ts))
+	}
+	// a sub-select over a soft-delete model keeps its own filter inside an Unscoped statement
+	{
+		var ps []Pet
+		fail("subquery_under_unscoped", db.Unscoped().Where("keeper_id IN (?)", db.Model(&Keeper{}).Select("id").Where("name = ?", "k")).Order("id").Find(&ps).Error)
+		ids := []int64{}
+		for _, p := range ps {
+			ids = append(ids, p.ID)
+		}
+		out = append(out, ids)
+		var n int64
+		fail("subquery_under_unscoped_count", db.Unscoped().Model(&Pet{}).Where("keeper_id IN (?)", db.Model(&Keeper{}).Select("id")).Count(&n).Error)
+		out = append(out, []int64{n})
 	}
 	// a nested join THROUGH the soft-deletable keeper: a marked keeper (and what lies behind it) is
 	// not joined, and an inner join does not match through it
@@ -827,6 +868,17 @@ func (e *env) assoc(in Input, twins bool) ([][]int64, [][]int64, []string) {
 			}
 		}
 	}
+	if twins {
+		// an association-mode Delete WITHOUT Unscoped that names a marked kid leaves it as it is
+		for _, r := range in.Rows {
+			if r.ID%3+1 == 3 {
+				before := kidDump()
+				fail("assoc_delete_marked", db.Model(&Owner{ID: 3}).Association("Kids").Delete(&Kid{ID: r.ID + 100}))
+				cmp("assoc_delete_marked", before, kidDump(), map[int64]bool{})
+				break
+			}
+		}
+	}
 	{
 		// a fresh handle per write (reading through a handle before writing through it is not part
 		// of this property); the Count AFTER a write goes through the handle that wrote
@@ -915,7 +967,8 @@ func main() {
 	whr.NoIDAtoms = true // a twin differs from its original in the key only
 	db, _, _, err := gdb.Open(gdb.Opt{Config: &gorm.Config{NowFunc: func() time.Time { return t2 }}})
 	lib.Must(err)
-	lib.Must(db.AutoMigrate(&whr.TS{}, &whr.TSZ{}, &Owner{}, &Kid{}, &Keeper{}, &Pet{}, &Ward{}, &Org{}, &Tag{}))
+	lib.Must(db.SetupJoinTable(&Owner{}, "Labels", &OwnerLabel{}))
+	lib.Must(db.AutoMigrate(&whr.TS{}, &whr.TSZ{}, &Owner{}, &Kid{}, &Keeper{}, &Pet{}, &Ward{}, &Org{}, &Tag{}, &OwnerLabel{}))
 	e := &env{db: db}
 	out := lib.NewOut(a.Out, "C08")
 	out.PerFile = 60
